@@ -162,8 +162,9 @@ func c10buildTree(r *rand.Rand, src hackpadfs.FS) (*c10tree, error) {
 		if err := hackpadfs.WriteFullFile(src, f, data, perm); err != nil {
 			return nil, err
 		}
-		if r.Intn(6) == 0 {
-			_ = hackpadfs.Chmod(src, f, perm|hackpadfs.ModeSetuid)
+		if r.Intn(4) == 0 {
+			special := []hackpadfs.FileMode{hackpadfs.ModeSetuid, hackpadfs.ModeSetgid, hackpadfs.ModeSticky, hackpadfs.ModeSetuid | hackpadfs.ModeSticky, hackpadfs.ModeSetgid | hackpadfs.ModeSticky}[r.Intn(5)]
+			_ = hackpadfs.Chmod(src, f, perm|special)
 		}
 		t.files = append(t.files, f)
 		t.size[f] = size
